@@ -61,7 +61,8 @@ def main():
     try:
         for cfgname, kw in (("default", {}), ("rwm-syst-noclust", dict(sample="rwm", resample="syst", clustering=False)),
                             ("blobs", dict(blobs=True)), ("pool-like", dict(pool=PoolLike())), ("pool=1", dict(pool=1)), ("pool=2", dict(pool=2)),
-                            ("cluster_every=3", dict(cluster_every=3)), ("progress-bar-on", dict(progress=True))):
+                            ("cluster_every=3", dict(cluster_every=3)), ("progress-bar-on", dict(progress=True)),
+                            ("dotted-label", dict(output_label="chain.1")), ("dotted-label-2", dict(output_label="sigma0.5_seed3", sample="rwm"))):
             tried += 1
             blobs = kw.pop("blobs", False)
             progress = kw.pop("progress", False)
@@ -70,10 +71,12 @@ def main():
                                      blobs_dtype="float" if blobs else None, **kw)
             s = mk(d)
             states = {}
+            saves = []
             orig = s._core.save_sampler_state
 
-            def spy(path, orig=orig, s=s, states=states):
+            def spy(path, orig=orig, s=s, states=states, saves=saves):
                 states[str(path)] = snap(s)
+                saves.append(str(path))
                 return orig(path)
             s._core.save_sampler_state = spy
             try:
@@ -84,6 +87,10 @@ def main():
             files = sorted(f for f in os.listdir(d) if f.endswith(".state"))
             if not files or any(f.endswith(".temp") for f in os.listdir(d)):
                 return {"reproduced": True, "detail": f"[{cfgname}] checkpoint files {os.listdir(d)}", "input": {"config": cfgname}}
+            if len(set(saves)) != len(saves) or sorted(os.path.basename(p) for p in saves) != files:
+                return {"reproduced": True, "detail": f"[{cfgname}] {len(saves)} checkpoints were written during the run but the output directory holds {files}: "
+                        f"checkpoints of different iterations share a file name, so earlier ones no longer restore the state they were written from",
+                        "input": {"config": cfgname, "saves": [os.path.basename(p) for p in saves]}}
             for path, st in states.items():
                 f = mk(os.path.join(tmp, cfgname + "_l"))
                 try:
@@ -97,8 +104,9 @@ def main():
                             "input": {"config": cfgname, "checkpoint": os.path.basename(path)}}
             # resume from a middle checkpoint (same and larger n_total)
             mids = [p for p in states if "final" not in p]
-            mid = sorted(mids, key=lambda p: int(os.path.basename(p).split("_")[1].split(".")[0]))[len(mids) // 2]
-            k = int(os.path.basename(mid).split("_")[1].split(".")[0])
+            num = lambda p: int(os.path.basename(p).rsplit("_", 1)[1].split(".")[0])
+            mid = sorted(mids, key=num)[len(mids) // 2]
+            k = num(mid)
             for nt in (96, 300):
                 r2 = mk(os.path.join(tmp, cfgname + f"_r{nt}"))
                 try:
@@ -193,6 +201,75 @@ def main():
                     return {"reproduced": True, "detail": f"crash at write call {kcrash}: final name holds neither the previous nor a complete new checkpoint", "input": {"crash_at_write": kcrash}}
             elif crashed:
                 return {"reproduced": True, "detail": f"crash at write call {kcrash} destroyed the previous checkpoint", "input": {"crash_at_write": kcrash}}
+        # every instant of a save, observed: at each I/O event of save_state (open, write, sendfile, rename/replace) the file under
+        # the final name must be absent, the previous checkpoint, or a complete loadable one - also when the output directory lives on
+        # another filesystem than the system temp directory (/dev/shm here, when it is a separate mount)
+        import shutil as _sh
+        dirs = [os.path.join(tmp, "observe")]
+        try:
+            if os.path.isdir("/dev/shm") and os.access("/dev/shm", os.W_OK) and os.stat("/dev/shm").st_dev != os.stat(tempfile.gettempdir()).st_dev:
+                dirs.append(tempfile.mkdtemp(prefix="c08_obs_", dir="/dev/shm"))
+        except OSError:
+            pass
+        try:
+            for od in dirs:
+                s2 = Sampler(pt, ll, n_dim=2, n_particles=24, random_state=1, output_dir=od)
+                s2.run(n_total=48, progress=False)
+                tgt = os.path.join(od, "ck.state")
+                s2.save_state(tgt)
+                prev = real_open(tgt, "rb").read()
+                s2.sample()
+                bad = []
+
+                def look(tag, tgt=tgt, prev=prev, bad=bad):
+                    if bad or not os.path.exists(tgt):
+                        return
+                    data = real_open(tgt, "rb").read()
+                    if data != prev:
+                        try:
+                            dill.loads(data)
+                        except Exception as e:
+                            bad.append((tag, len(data), type(e).__name__))
+                r_send, r_write, r_rename, r_repl = getattr(os, "sendfile", None), os.write, os.rename, os.replace
+
+                def w_open(p, mode="r", *a, **kw):
+                    f = real_open(p, mode, *a, **kw)
+                    look(f"open({os.path.basename(str(p))!r}, {mode!r})")
+                    return f
+
+                def w_send(*a, **kw):
+                    look("sendfile")
+                    return r_send(*a, **kw)
+
+                def w_write(*a, **kw):
+                    look("write")
+                    return r_write(*a, **kw)
+
+                def w_rename(*a, **kw):
+                    look("before rename")
+                    return r_rename(*a, **kw)
+
+                def w_repl(*a, **kw):
+                    look("before replace")
+                    return r_repl(*a, **kw)
+                builtins.open, os.write, os.rename, os.replace = w_open, w_write, w_rename, w_repl
+                if r_send:
+                    os.sendfile = w_send
+                try:
+                    s2.save_state(tgt)
+                finally:
+                    builtins.open, os.write, os.rename, os.replace = real_open, r_write, r_rename, r_repl
+                    if r_send:
+                        os.sendfile = r_send
+                tried += 1
+                if bad:
+                    where = "a filesystem other than the system temp directory's" if od.startswith("/dev/shm") else "the temp filesystem"
+                    return {"reproduced": True, "detail": f"while save_state was overwriting an existing checkpoint (output directory on {where}), at I/O event "
+                            f"{bad[0][0]} the file under the final name was an incomplete {bad[0][1]}-byte file ({bad[0][2]} on load): a crash at that instant "
+                            f"destroys the previous checkpoint", "input": {"output_dir_on": od.split(os.sep)[1:3], "event": bad[0][0]}}
+        finally:
+            for od in dirs[1:]:
+                _sh.rmtree(od, ignore_errors=True)
         # crash at the instant of the rename: whatever is on disk under the final name right after os.replace returns (data still
         # sitting in a user-space buffer is NOT on disk) must already be the complete new checkpoint
         real_replace = os.replace
